@@ -34,6 +34,7 @@ Public API
         .majorant(elem, dirs, radii)                            M(r) >= sup |f_elem| on the polydisc
         .scale(order, elem, dirs, r0, r1)                       local scale S_order (see below)
         .max_majorant(reach)                                    overflow guard: sup of all values on the polydisc
+        .trunc(elem, dirs, kmin, radii)                         terms of degree >= kmin of the majorant series
         .noise(elem), .cond(elem, dirs)                         argument-rounding terms for the floor
         .sup_box(elem, d)                                       polynomial part: sup |f| on the box |s_l| <= d_l
         .ops(), .negative_base()                                 classification of findings
@@ -42,6 +43,8 @@ Public API
     generated_steps(obj, x) / fit_steps(build, x, limit, width, u)  steps of a configuration (the library's own
                                         generator) and their construction inside the certified reach
     kbucket(k_est)                                              k-bucket names of the C01 tolerance table
+    documented_orders(cls, method, order), richardson_amplification(r, p, s, t),
+    envelope_unit(an, elem, dirs, q, heads, w, dform, amp), extrapolated_unit(...)   Richardson-aware envelope unit
 
 Oracle
 ------
@@ -85,6 +88,7 @@ from nverif.oracle import exprs
 from nverif.oracle.jets import JetDomainError
 
 K_DEFAULT = 30
+EPS_ = 2.0 ** -52
 R_CAP = 32.0               # largest radius ever used for entire programs (= max(RHO_GRID) / 2)
 
 
@@ -572,6 +576,58 @@ class MVAnalysis(object):
             M = abs(self.wrap[0]) * M + abs(self.wrap[1])
         return M
 
+    # ---- truncation sums (terms of the majorant series a rule of a given order does not reproduce) ----
+    def _factor_series(self, r, rho, radii, kmin):
+        """(explicit coefficient array m_a = |c_a(g_r)| rho^a (a < K), tail_{kmin}(radii), full majorant(radii),
+        Cauchy tail beyond K (radii)) of the root of ridge factor r along a direction set with sum |a_d| = rho."""
+        f = self.factors[r]
+        an = f['an']
+        R = np.maximum(rho * np.asarray(radii, dtype=float), 1e-300)
+        with np.errstate(all='ignore'):
+            coef = np.exp(an.logc[-1]) * rho ** np.arange(an.K) if rho > 0 else \
+                np.concatenate([[math.exp(an.logc[-1][0])], np.zeros(an.K - 1)])
+            tail_k = np.exp(np.minimum(an.log_bound(0, R, node=-1, kmin=kmin)[0], 709.0))
+            full = np.exp(np.minimum(an.log_bound(0, R, node=-1)[0], 709.0))
+            cauchy = np.exp(np.minimum(an.log_bound(0, R, node=-1, kmin=an.K)[0], 709.0))
+        return coef, tail_k, full, cauchy
+
+    def trunc(self, elem, dirs, kmin, radii):
+        """Tail_kmin(r) = sum of the terms of total degree >= kmin of the majorant series of f_elem in the
+        perturbed coordinates D (plus Cauchy tails): an upper bound of sum_{k >= kmin} |c_k| r^k for the Taylor
+        coefficients c_k of s -> f_elem(x + s u), |u_d| <= 1 on D.  Polynomial part: its monomials of degree
+        >= kmin; ridge term c*g(a.x+b0): |c| sum_{k >= kmin} |c_k(g)| (rho r)^k; product c*g1*g2: Cauchy product
+        of the two coefficient sequences restricted to a + b >= kmin, plus cross terms with the Cauchy tails."""
+        D = sorted(set(dirs))
+        radii = np.asarray(radii, dtype=float)
+        tot = np.zeros_like(radii)
+        with np.errstate(all='ignore'):
+            for coef_e, i in self.elements[elem]:
+                c00, lin, quad = self._poly_coefs(i, D)
+                part = np.zeros_like(radii)
+                if kmin <= 0:
+                    part = part + c00
+                if kmin <= 1:
+                    part = part + lin * radii
+                if kmin <= 2:
+                    part = part + quad * radii ** 2
+                for t in self.prog['comps'][i]['terms']:
+                    rhos = [sum(self.factors[r]['absa'][d] for d in D) for r in t['f']]
+                    if len(t['f']) == 1:
+                        _c, tail_k, _f, _cy = self._factor_series(t['f'][0], rhos[0], radii, kmin)
+                        part = part + abs(t['c']) * tail_k
+                    else:
+                        c1, _t1, f1, y1 = self._factor_series(t['f'][0], rhos[0], radii, kmin)
+                        c2, _t2, f2, y2 = self._factor_series(t['f'][1], rhos[1], radii, kmin)
+                        conv = np.convolve(c1, c2)                      # degrees 0 .. 2K-2
+                        deg = np.arange(conv.size)
+                        conv = np.where(deg >= kmin, conv, 0.0)
+                        expl = np.array([float(np.sum(conv * rr ** deg)) for rr in radii])
+                        part = part + abs(t['c']) * (expl + y1 * f2 + f1 * y2)
+                tot = tot + abs(coef_e) * part
+        if self.wrap is not None:
+            tot = abs(self.wrap[0]) * tot
+        return tot
+
     def max_majorant(self, reach):
         """max over the output elements of M_e(all coordinates, reach): an upper bound of every value and
         intermediate value of f on the polydisc of radius reach (inf if not certified that far).  The checks
@@ -735,11 +791,13 @@ def generated_steps(d, x_arr):
     return steps, gen.step_ratio
 
 
-def fit_steps(build, x_arr, limit, width, u=0.0):
+def fit_steps(build, x_arr, limit, width, u=0.0, frac=None, cap=1.0):
     """Construct the object with build(scale, base) so that  width * h_max <= limit  (DESIGN 3.1): the
     configuration as drawn (build(1.0, None)) if it fits, otherwise the same generator class with every
     step multiplied by  limit/reach * 10^-u  (build(scale, base), base = the effective base_step the
     library resolved for the unscaled configuration, e.g. 2.0 or EPS**(1/scale)).
+    frac (step specifications of kind 'geo'): the steps are always scaled so that
+    width * h_max = frac * min(limit, cap).
     Returns (object, steps, step_ratio, scale, base) or a string naming the reason the case must be
     skipped."""
     d = build(1.0, None)
@@ -749,8 +807,11 @@ def fit_steps(build, x_arr, limit, width, u=0.0):
         return 'no steps generated'
     scale = 1.0
     reach = width * max(float(np.max(s)) for s in steps)
-    if reach > limit:
-        scale = limit / reach * 10.0 ** (-u)
+    if frac is not None or reach > limit:
+        if frac is not None:
+            scale = frac * min(limit, cap) / reach
+        else:
+            scale = limit / reach * 10.0 ** (-u)
         base = d.step.base_step
         d = build(scale, base)
         steps, ratio = generated_steps(d, x_arr)
@@ -800,7 +861,32 @@ def step_specs(draw, method, kinds=('default',) * 5 + ('min', 'max', 'scalar', '
     elif kind == 'options':
         spec['num_extrap'] = draw(st.integers(0, 9))
         spec['step_ratio'] = draw(st.sampled_from([None, 1.6, 2.0, 3.0, 4.0]))
+    elif kind == 'geo':
+        # short geometric user sequence: k derivative estimates (3..8), largest step a drawn fraction of the
+        # certified reach (or of 1 for entire programs), so that the documented extrapolation order matters
+        spec['k'] = draw(st.integers(3, 8))
+        spec['step_ratio'] = draw(st.sampled_from([1.6, 2.0, 2.0, 3.0, 4.0]))
+        spec['log10_frac'] = round(draw(st.floats(-2.5, -0.3)), 3)
+        spec['use_exact_steps'] = draw(st.booleans())
     return spec
+
+
+GEO_KINDS = ('default',) * 5 + ('min', 'max', 'scalar', 'options') + ('geo',) * 3
+
+
+def geo_frac(spec):
+    """frac argument of fit_steps for a step specification (None unless kind == 'geo')."""
+    return 10.0 ** spec['log10_frac'] if spec['kind'] == 'geo' else None
+
+
+def geo_fixup(d, spec, ratio=None, hessian=False):
+    """kind 'geo': give the generator of the constructed object as many steps as leave spec['k'] derivative
+    estimates after the difference rule (rule length read from the object: configuration, not result)."""
+    if spec['kind'] != 'geo':
+        return d
+    L = 1 if hessian else int(np.size(d.fd_rule.rule(spec['step_ratio'])))
+    d.step.num_steps = spec['k'] + L - 1
+    return d
 
 
 def make_step(nd, spec, method, scale=1.0, base=None):
@@ -826,6 +912,9 @@ def make_step(nd, spec, method, scale=1.0, base=None):
         return None, opts
     if kind == 'scalar':
         return 10.0 ** spec['log10_base'] * scale, {}
+    if kind == 'geo':
+        return nd.MaxStepGenerator(base_step=(1.0 if base is None else base) * scale, step_ratio=spec['step_ratio'],
+                                   num_steps=spec['k'], use_exact_steps=spec['use_exact_steps']), {}
     if kind == 'max':
         return nd.MaxStepGenerator(base_step=10.0 ** spec['log10_base'] * scale,
                                    step_ratio=spec['step_ratio'], num_steps=spec['num_steps'],
@@ -840,3 +929,100 @@ def make_step(nd, spec, method, scale=1.0, base=None):
                                    num_extrap=spec['num_extrap'],
                                    use_exact_steps=spec['use_exact_steps']), {}
     raise ValueError(kind)
+
+
+# --------------------------------------------------------------------------------------
+# Richardson-aware envelope unit (documented orders restated here, never read from the library)
+# --------------------------------------------------------------------------------------
+
+def documented_orders(cls, method, order):
+    """(spacing s, leading order p) of the truncation-error expansion  err(h) = a_p h^p + a_{p+s} h^{p+s} + ...
+    of the estimates left after the difference rule, as documented / as follows from the Taylor series:
+      one-sided rules (forward, backward): s = 1, p = order (Hessian: 1);
+      central, central2: s = 2, p = order rounded down to even, >= 2 (Hessian: 2);
+      multicomplex: s = 2, p = 2;
+      complex: Jacobian/Gradient order < 4: s = 2, p = 2 (Im f(x + ih)/h); order >= 4: s = 4, p = 4;
+               Hessdiag: s = 4, p = 4 (Im[f(x + sqrt(i) h) + f(x - sqrt(i) h)] has the powers h^2, h^6, ...);
+               Hessian: s = 2, p = 2 (Ridout eq. 10: only even powers of h)."""
+    hess = cls == 'Hessian'
+    if method in ('forward', 'backward'):
+        return 1, (1 if hess else max(int(order), 1))
+    if method in ('central', 'central2'):
+        return 2, (2 if hess else max(2 * (int(order) // 2), 2))
+    if method == 'multicomplex':
+        return 2, 2
+    if method == 'complex':
+        if hess:
+            return 2, 2
+        if cls == 'Hessdiag':
+            return 4, max(4 * (int(order) // 4), 4)
+        return (4, max(4 * (int(order) // 4), 4)) if order >= 4 else (2, 2)
+    raise ValueError(method)
+
+
+def richardson_amplification(r, p, s, t):
+    """sum |w_i| of the weights w_0..w_t with sum w_i = 1 and sum w_i r^(-i (p + s j)) = 0 for j < t, i.e. of
+    the combination of t+1 estimates at steps h, h/r, ..., h/r^t that removes h^p, ..., h^(p+s(t-1))."""
+    if t <= 0 or not (r > 1):
+        return 1.0
+    A = np.ones((t + 1, t + 1))
+    for j in range(t):
+        A[j + 1, :] = [r ** (-i * (p + s * j)) for i in range(t + 1)]
+    rhs = np.zeros(t + 1)
+    rhs[0] = 1.0
+    try:
+        wts = np.linalg.solve(A, rhs)
+    except np.linalg.LinAlgError:
+        return 1.0
+    return float(max(1.0, np.sum(np.abs(wts))))
+
+
+def envelope_unit(an, elem, dirs, q, heads, w, dform, amp):
+    """U = amp * min over heads h of [ T_q(w h) + R(h) ]  for the partial derivative of f_elem in dirs
+    (N = len(dirs) = 1 or 2; for a mixed partial h is the geometric mean of the two steps):
+        T_q(r) = c_D * Tail_{N+q}(r) / r^N        truncation of a rule of order q (MVAnalysis.trunc)
+        R(h)   = eps (c_D M_e(D, w h) + (n+2) noise_e) / h^N     rules that difference function values
+               = eps S_N(e, D; [w h, reach])                     cancellation-free rules
+        c_D = N! for one coordinate, 1 for a mixed partial.
+    Returns (U, T, R) at the minimising head, or None."""
+    N = len(dirs)
+    hs = np.array(sorted(set(float(h) for h in heads if h > 0), reverse=True))
+    if hs.size == 0:
+        return None
+    lim = min(an.reach_limit(dirs), R_CAP)
+    radii = np.minimum(w * hs, lim)
+    cD = math.factorial(N) if len(set(dirs)) == 1 else 1.0
+    with np.errstate(all='ignore'):
+        T = cD * an.trunc(elem, dirs, N + q, radii) / radii ** N
+        if dform:
+            R = EPS_ * (cD * an.majorant(elem, dirs, radii) + (an.n + 2) * an.noise(elem)) / hs ** N
+        else:
+            R = np.array([EPS_ * (an.scale(N, elem, dirs, rr, math.inf) or math.inf) for rr in radii])
+        tot = T + R
+    ok = np.isfinite(tot)
+    if not np.any(ok):
+        return None
+    j = int(np.argmin(np.where(ok, tot, np.inf)))
+    return amp * float(tot[j]), amp * float(T[j]), amp * float(R[j])
+
+
+def extrapolated_unit(an, cls, method, order, elem, dirs, hcols, k_est, ratio, w, dform, amp_rule, terms=2):
+    """min(U_basic, U_x): U_basic = unit of the documented leading order p over the k_est largest steps;
+    U_x = unit of order p + s*t over the k_est - t largest steps times sum |Richardson weights|,
+    t = min(terms, k_est - 1).  hcols: list of step sequences (one per coordinate in dirs), each sorted
+    descending.  Returns (U, which, t) or None."""
+    s_doc, p_doc = documented_orders(cls, method, order)
+    cols = [np.sort(np.asarray(c, dtype=float))[::-1] for c in hcols]
+    hs = cols[0] if len(cols) == 1 else np.sqrt(cols[0] * cols[1])
+    k_est = int(max(1, min(k_est, hs.size)))
+    ub = envelope_unit(an, elem, dirs, p_doc, hs[:k_est], w, dform, amp_rule)
+    t = max(0, min(int(terms), k_est - 1))
+    ux = None
+    if t > 0:
+        amp_r = richardson_amplification(float(abs(ratio)), p_doc, s_doc, t)
+        ux = envelope_unit(an, elem, dirs, p_doc + s_doc * t, hs[:max(k_est - t, 1)], w, dform, amp_rule * amp_r)
+    if ub is None and ux is None:
+        return None
+    if ux is not None and (ub is None or ux[0] < ub[0]):
+        return ux[0], 'extrapolated', t
+    return ub[0], 'basic', t
